@@ -83,7 +83,7 @@ def generate(ctx):
             else:
                 ops.append({"op": rng.choice(["toggle_strict", "toggle_live"])})
         yield {"part": "shaped", "shape": shape, "storage": rng.choice(["buffer", "param", "none", "empty"]),
-               "strict": rng.random() < 0.5, "live": rng.random() < 0.3, "ops": ops,
+               "strict": rng.random() < 0.5, "live": rng.random() < 0.3, "ops": ops, "sibling": rng.random() < 0.6,
                "init": {str(d): shape[d] for d in rng.sample(range(-nd, nd), rng.randint(0, min(2, nd)))}}
 
 
@@ -380,6 +380,15 @@ def _run_shaped(ctx, desc):
     ShapedTensor.create(owner, "st", val, init, strict=strict, live=live)
     st = owner.st
     mcons = dict(init)
+    # a sibling built from the very same constraints mapping (a module configuring several state tensors from one dict):
+    # whatever happens to `st` is none of its business, and the caller's mapping stays the caller's
+    sib = sib_cons = sib_data = None
+    if desc.get("sibling") and storage in ("buffer", "none") and init:
+        sval = None if val is None else (val.detach().clone() + 0.5)
+        ShapedTensor.create(owner, "sib", sval, init, strict=strict, live=live)
+        sib, sib_cons, sib_data = owner.sib, dict(init), (None if sval is None else _np(sval).copy())
+        ctx.count("sibling_tensors_sharing_a_constraints_mapping")
+    init_copy = dict(init)
     mdata = None if (val is None or val.numel() == 0) else _np(val).copy()
     for oi, op in enumerate(desc["ops"]):
         rdesc = {**desc, "ops": desc["ops"][: oi + 1]}
@@ -504,6 +513,19 @@ def _run_shaped(ctx, desc):
                     ctx.violation(f"shaped.{kindop}.parameter_lost", "value is no longer a Parameter", rdesc)
                     return
         # --- invariants after every operation
+        if init != init_copy:
+            ctx.violation("shaped.callers_constraints_mapping_modified", f"the dict passed at construction is now {init}, was {init_copy}", rdesc)
+            return
+        if sib is not None:
+            ctx.count("sibling_isolation_checks")
+            sv = sib.value
+            sv_none = sv is None or sv.numel() == 0
+            if dict(sib.constraints) != sib_cons or (sib_data is None) != sv_none or (
+                    sib_data is not None and (tuple(sv.shape) != sib_data.shape or not np.array_equal(_np(sv), sib_data))):
+                ctx.violation("shaped.sibling_sharing_constraints_mapping_affected",
+                              f"an operation on one tensor changed another built from the same mapping: constraints "
+                              f"{dict(sib.constraints)} (were {sib_cons})", rdesc)
+                return
         mshape = None if mdata is None else mdata.shape
         if dict(st.constraints) != mcons:
             ctx.violation("shaped.constraints_getter", f"constraints {dict(st.constraints)} != model {mcons}", rdesc)
